@@ -171,7 +171,7 @@ class Gen:
                 spec = ""
                 if r.random() < 0.4:
                     # a doc block before an access specifier belongs to nothing
-                    spec = self.dangling(indent + "  ") + indent + r.choice(["public:\n", "private:\n", "protected:\n"])
+                    spec = self.dangling(indent + "  ") + indent + "  " + r.choice(["public:\n", "private:\n", "protected:\n"])
                 tail = self.dangling(indent + "  ") if r.random() < 0.3 else ""
                 pre = r.choice(["", "", "template <typename T> ", "template <typename T>\n" + indent])
                 out.append(a + indent + "%sstruct %s {\n%s%s%s%s};%s\n" % (pre, nm, spec, "".join(body), tail, indent, t))
